@@ -114,6 +114,8 @@ def main(tier: str) -> int:
                 if cn == "SHAGA":
                     cfg["str_len"] = [12, 30][sid % 2]
                 runs.append((cn, cfg))
+    for j, (fmin, fmax) in enumerate(((0.5, 0.4), (0.2, 0.1), (0.1, 0.9))):
+        runs.append(("jDE", dict(pop_size=8, iters=12, objective="sphere", seed=chk.seed * 100 + 70 + j, keep_history=True, F_min=fmin, F_max=fmax, t_F=0.6, t_CR=0.6)))
     # the replay input of finding F9 stays in the corpus
     runs.insert(0, ("SHAGA", dict(pop_size=3, iters=25, objective="onemax", str_len=30, seed=2, elitism=True, keep_history=True)))
     for cn, cfg in runs:
@@ -134,6 +136,9 @@ def main(tier: str) -> int:
             if cn == "jDE":
                 F, CR = a["_F"], a["_CR"]
                 lo, hi = opt._F_min, opt._F_min + opt._F_max
+                regen = a["_F"] != b["_F"]
+                if np.any(F[regen] < lo - 1e-15) or np.any(F[regen] > hi + 1e-15):
+                    chk.fail("a regenerated jDE F lies outside [F_min, F_min + F_max]", {**dd, "F_min": lo, "F_max": opt._F_max, "regenerated": F[regen].tolist()}, {"optimizer": cn, "clause": "range"})
                 if np.any(F < min(lo, 0.5) - 1e-15) or np.any(F > max(hi, 0.5) + 1e-15) or np.any(CR < 0) or np.any(CR > 1):
                     chk.fail("jDE parameters outside [F_min, F_min+F_max] / [0,1]", {**dd, "F": F.tolist(), "CR": CR.tolist()}, {"optimizer": cn, "clause": "range"})
                 changed = (a["_F"] != b["_F"]) | (a["_CR"] != b["_CR"])
